@@ -2,7 +2,7 @@
 
     Statements only; proofs in [Farm/Rewards.v] (on top of the invariant of [Farm/Proofs.v]).
     [reachable s] as in C05: any history from any genesis with an empty farm account. *)
-From Irismod Require Import Farm.Model Farm.Check Farm.Proofs Farm.Rewards.
+From Irismod Require Import Farm.Model Farm.Check Farm.Proofs Farm.Rewards Farm.Refund.
 
 (** RELEASE.  Every successful updatePool (each of stake, unstake, harvest, adjust, destroy and the
     end blocker goes through it), at any height, on any pool and ledger: the reward released for a
@@ -74,6 +74,48 @@ Theorem remaining_budget_never_negative :
     reachable s -> get pid (pools s) = Some p -> Forall (fun r => 0 <= r_rem r /\ 0 < r_pb r) (p_rules p).
 Proof. exact rem_nonneg_lemma. Qed.
 Print Assumptions remaining_budget_never_negative.
+
+(** REFUND.  In a reachable state, the refund of a queued pool (run by the end blocker at the end height
+    and by DestroyPool) first releases what is due up to now, then pays the creator exactly what remains
+    of every budget, from the farm account; afterwards nothing remains, the pool has ended at this height
+    and has no queue entry at all.  The function reports success iff something was paid. *)
+Theorem refund_pays_exactly_the_remaining_budget :
+  forall (s : state) (pid : Z) (p : pool) (s' : state) (ok : bool),
+    reachable s -> get pid (pools s) = Some p -> in_queue (queue s) (p_end p, pid) = true ->
+    refund s pid p = (s', ok) ->
+    let rel d := rule_sum (fun r => r_pb r * release_iv (height s) p) (p_rules p) d in
+    (forall d, bal (bank s') (p_creator p) d - bal (bank s) (p_creator p) d = rule_sum r_rem (p_rules p) d - rel d)
+    /\ (forall d, bal (bank s') FARM d - bal (bank s) FARM d = - rule_sum r_rem (p_rules p) d)
+    /\ (forall d, bal (bank s') COLL d - bal (bank s) COLL d = rel d)
+    /\ (forall a d, a <> FARM -> a <> COLL -> a <> p_creator p -> bal (bank s') a d = bal (bank s) a d)
+    /\ (exists p', get pid (pools s') = Some p' /\ Forall (fun r => r_rem r = 0) (p_rules p')
+                   /\ p_end p' = height s /\ p_locked p' = p_locked p /\ p_farmers p' = p_farmers p
+                   /\ map r_total (p_rules p') = map r_total (p_rules p))
+    /\ (forall e, in_queue (queue s') (e, pid) = false)
+    /\ height s' = height s
+    /\ (ok = true <-> exists d, 0 < rule_sum r_rem (p_rules p) d - rel d).
+Proof. intros s pid p s' ok R. exact (refund_effect s pid p s' ok (reachable_inv _ R)). Qed.
+Print Assumptions refund_pays_exactly_the_remaining_budget.
+
+(** A refund needs a queued pool: DestroyPool succeeds only on a pool that is still queued (and the end
+    blocker works through the queue entries of the current height) ... *)
+Theorem destroy_refunds_a_queued_pool :
+  forall (s : state) (who : acct) (pid : Z) (s' : state) (rw : list (denom * Z)),
+    reachable s -> destroy s who pid = Done s' rw ->
+    exists p, get pid (pools s) = Some p /\ in_queue (queue s) (p_end p, pid) = true /\ refund s pid p = (s', true).
+Proof. intros s who pid s' rw R. exact (destroy_needs_queued s who pid s' rw (reachable_inv _ R)). Qed.
+Print Assumptions destroy_refunds_a_queued_pool.
+
+(** ... and a pool without queue entry never gets one again, whatever happens afterwards, and its
+    rules (remaining budgets zero after the refund) and end height never change: exactly one refund. *)
+Theorem refund_exactly_once :
+  forall (steps : list step) (s : state) (pid : Z) (p : pool),
+    reachable s -> Forall valid_step steps -> get pid (pools s) = Some p ->
+    (forall e, in_queue (queue s) (e, pid) = false) ->
+    (exists p', get pid (pools (run s steps)) = Some p' /\ p_rules p' = p_rules p /\ p_end p' = p_end p)
+    /\ (forall e, in_queue (queue (run s steps)) (e, pid) = false).
+Proof. intros steps s pid p R. exact (refunded_forever steps s pid p (reachable_inv _ R)). Qed.
+Print Assumptions refund_exactly_once.
 
 (** PRO RATA.  One farmer and one rule, over ANY list of events: [Accrue dr] (the per-share value
     grows by dr >= 0; the farmer's exact share, in units of 10^-18, grows by dr * stake) and
